@@ -6,7 +6,7 @@ from checks import exprun, runner
 SAFE_KIND = {"export_safe_distance_op": "Dist", "export_safe_fma_norm_op": "Horiz", "export_safe_nofma_norm_op": "Horiz",
              "export_safe_horizontal_op": "Horiz", "export_safe_vertical_op": "Vert", "export_safe_value_op": "Value",
              "export_safe_arithmetic_vector_x_value_op": "Value", "export_safe_arithmetic_vector_x_vector_op": "Vert"}
-CONST_DIMS = [0, 1, 3, 8, 17, 33, 65, 130]
+CONST_DIMS = [0, 1, 3, 7, 8, 13, 17, 33, 65, 130]
 
 
 def host_bits():
